@@ -648,7 +648,7 @@ func (h *harness) runCase(k *kase, index int) {
 							dd.Got = safeFmt(d.Elem())
 							dd.Input = fmt.Sprintf("reused-destination=%v", reused)
 							viol("c", dstLabels[i], what, dd)
-						} else if lc.evals%40009 == 0 && c.WantSample() {
+						} else if p.name != "" && len(b) < 200 && (lc.evals%4001 == 0 || lc.evals < 3) && c.WantSample() {
 							c.Sample(map[string]interface{}{"type": t.str, "nulls": p.name, "version": vn,
 								"bytes_hex": hex.EncodeToString(b), "dest": dstLabels[i], "decoded": safeFmt(d.Elem())})
 						}
